@@ -545,7 +545,7 @@ def check_penalize_case(ctx, cases, state, n, csr, b, x, S, which, k, rng):
                                   cz(w)), f'(Some ({c_rows(canon_rows(A2))}, {c_ozs(gb)}))', rep))
 
 
-def check_penalize_limit(ctx, state, n, csr, b, x, D, rng, zero_diag=False):
+def check_penalize_limit(ctx, state, n, csr, b, x, D, rng, zero_diag=False, key=None):
     """default epsilon: penalised solution vs condensed solution on a system whose kept block is diagonally dominant.
     zero_diag: the constrained rows carry a zero (or no) diagonal entry, as the pressure rows of a saddle-point system or
     rows without stored entries do — the property quantifies over those matrices too."""
@@ -568,7 +568,7 @@ def check_penalize_limit(ctx, state, n, csr, b, x, D, rng, zero_diag=False):
     A = to_scipy(ip, ix, d, n)
     bb, xx = np.array(b, dtype=float), np.array(x, dtype=float)
     Darr = idx_array(rng, D)
-    key = 'penalize:default-epsilon:zero-diagonal' if zero_diag else 'penalize:limit'
+    key = key or ('penalize:default-epsilon:zero-diagonal' if zero_diag else 'penalize:limit')
     rep = {'fn': 'penalize (default epsilon) vs condense', 'n': n, 'indptr': ip, 'indices': ix, 'data': d, 'b': b, 'x': x, 'D': D}
     ctx.count(('penalize_limit', zero_diag, n, ip, ix, d, b, x, D), nontrivial=0 < len(D) < n)
     yc = solve(*condense(A, bb, xx, D=Darr))
@@ -967,6 +967,11 @@ def replay(ctx, data):
     elif inp.get('fn') == 'condense':
         check_condense_case(ctx, cases, state, inp['n'], (inp['indptr'], inp['indices'], inp['data']), inp['b'], inp['x'],
                             inp[which], which, ctx.rng)
+    elif inp.get('fn', '').startswith('penalize (default epsilon)'):
+        check_penalize_limit(ctx, state, inp['n'], (inp['indptr'], inp['indices'], inp['data']), inp['b'], inp['x'], inp['D'], ctx.rng,
+                             key=data.get('key'))
+        ctx.searched_known = False
+        return
     elif inp.get('fn') == 'enforce positions':
         _positions_case(ctx, cases, len(inp['indptr']) - 1, inp['indptr'], inp['D'], ctx.rng)
     else:
